@@ -1,5 +1,5 @@
 """ADF-level building blocks: symbolic ADFs built through the real code, textbook oracles (z3 and python)."""
-import itertools, random
+import itertools, random, json
 import z3
 from mirse.engine import *
 from mirse.hlib import *
@@ -91,6 +91,22 @@ def is_stable(tabs, v, n):
     red = [[tabs[s][asg & keep] for asg in range(1 << n)] for s in range(n)]
     g = lfp(red, n)
     return z3.And(is_model(tabs, v, n), *[g[s][0] for s in range(n) if v[s] == 'T'])
+
+# The oracle formulas depend only on the (symbolic) truth tables, which are the same z3 constants on every path of a job:
+# they are built once per worker process and reused (building them dominated the run time otherwise).
+_ORACLE_CACHE = {}
+def famkey(fam): return json.dumps(fam)
+def cached(kind, fam, n, build):
+    k = (kind, n, famkey(fam))
+    if k not in _ORACLE_CACHE:
+        if len(_ORACLE_CACHE) > 64: _ORACLE_CACHE.clear()
+        _ORACLE_CACHE[k] = build()
+    return _ORACLE_CACHE[k]
+
+def oracle_lfp(fam, tabs, n): return cached('lfp', fam, n, lambda: [(z3.simplify(a), z3.simplify(b)) for a, b in lfp(tabs, n)])
+def oracle_set(kind, fam, tabs, n, cands):
+    orc = {'complete': is_complete, 'stable': is_stable, 'models': is_model}[kind]
+    return cached(kind, fam, n, lambda: {v: z3.simplify(orc(tabs, v, n)) for v in cands})
 
 # ------------------------------------------------------------------ python oracles on concrete tables (replay side)
 
